@@ -38,9 +38,19 @@ def loads_clean(text, what='document', via_file=False):
 
 def dumps(doc, what='dumps', **kw):
     try:
-        return kp.dumps(doc, **kw)
+        text = kp.dumps(doc, **kw)
     except Exception as e:  # noqa
         raise Bad('export-raised', f'{what}({_kwrepr(kw)}) raised {type(e).__name__}: {e}', exc=type(e).__name__)
+    check_shape(text, f'{what}({_kwrepr(kw)})')
+    return text
+
+
+def check_shape(text, what='export'):
+    """an export is a sequence of non-empty lines, each closed by one line feed; when every line was dropped
+    (all placeholders) nothing is left - not an empty line"""
+    if text != '' and (not text.endswith('\n') or text.startswith('\n') or '\n\n' in text):
+        raise Bad('text-shape', f'{what} returned {text!r}: an export is a sequence of non-empty lines each closed by a line feed '
+                  f'(dropped lines leave nothing behind)')
 
 
 def _kwrepr(kw):
